@@ -1011,20 +1011,39 @@ func (ex *Exec) enterLoop(f *frame, st *State, h *ssa.BasicBlock, li *loopInfo, 
 			continue
 		}
 		l := f.locOf(pa.alloc)
-		if l.kind != "obj" || l.root != nil {
-			continue // struct cells: fields handled by their own components; keep it simple
-		}
-		comp := compCell(l.typ)
-		sort, ok := ex.compSort(comp)
-		if !ok {
+		if l.kind != "obj" {
 			continue
 		}
-		cur, has := st.heap[comp]
-		if !has {
-			continue
+		var leaves []*Loc
+		var walk func(x *Loc)
+		walk = func(x *Loc) {
+			if s, ok := x.typ.Underlying().(*types.Struct); ok && x.root != nil {
+				for i := 0; i < s.NumFields(); i++ {
+					walk(ex.fieldLoc(x, i))
+				}
+				return
+			}
+			leaves = append(leaves, x)
 		}
-		entryVal := sel(ex.getFrom(loopEntryHeap, comp, sort), pa.ref)
-		st.heap[comp] = ex.sc.define(ex.sc.freshName("lp:"+comp), store(cur, pa.ref, entryVal))
+		walk(l)
+		for _, lf := range leaves {
+			var comp string
+			if lf.root == nil {
+				comp = compCell(lf.typ)
+			} else {
+				comp = compField(lf.root, lf.path)
+			}
+			sort, ok := ex.compSort(comp)
+			if !ok {
+				continue
+			}
+			cur, has := st.heap[comp]
+			if !has {
+				continue
+			}
+			entryVal := sel(ex.getFrom(loopEntryHeap, comp, sort), pa.ref)
+			st.heap[comp] = ex.sc.define(ex.sc.freshName("lp:"+comp), store(cur, pa.ref, entryVal))
+		}
 	}
 	// the clock only moves forward across iterations
 	if _, ok := ex.compSort("G:clock"); ok {
